@@ -213,6 +213,52 @@ func checkBindingKeys(p *Program, r *Result, rule string) {
 			found = true
 			schema, channel, msg := ret.Results[0], ret.Results[1], ret.Results[2]
 			pos := p.pos(ret.Pos())
+			// the binding may be done by an unexported helper that is handed the message and returns schema and channel:
+			// the three conditions are then judged at the helper's returns that deliver a channel
+			if se, ok := schema.(*ssa.Extract); ok {
+				if ce, ok := channel.(*ssa.Extract); ok && ce.Tuple == se.Tuple {
+					if call, ok := ce.Tuple.(*ssa.Call); ok {
+						if h := call.Call.StaticCallee(); h != nil && p.transparent(h) {
+							var hmsg ssa.Value
+							for i, a := range call.Call.Args {
+								if sameOrPhi(a, msg) && i < len(h.Params) {
+									hmsg = h.Params[i]
+								}
+							}
+							if hmsg != nil {
+								n := 0
+								for _, hin := range instrsOf(h) {
+									hret, ok := hin.(*ssa.Return)
+									if !ok || ce.Index >= len(hret.Results) || isNilConst(hret.Results[ce.Index]) {
+										continue
+									}
+									n++
+									hs, hc := hret.Results[se.Index], hret.Results[ce.Index]
+									hpos := p.pos(hret.Pos())
+									if ok, why := isTableGet(hc, "channels", hmsg, "ChannelID"); ok {
+										r.held(rule, fname, "channel of the yielded message", hpos, "looked up (in "+funcName(h)+") by the yielded message's ChannelID")
+									} else {
+										r.violated(rule, fname, "channel of the yielded message", hpos, "the returned channel is not the lookup of the returned message's ChannelID: "+why)
+									}
+									if ok, why := isTableGet(hs, "schemas", hc, "SchemaID"); ok {
+										r.held(rule, fname, "schema of the yielded message", hpos, "looked up by the yielded channel's SchemaID")
+									} else {
+										r.violated(rule, fname, "schema of the yielded message", hpos, "the returned schema is not the lookup of the returned channel's SchemaID: "+why)
+									}
+									if !nilSchemaGuard(h, hret, hs, hc) {
+										r.violated(rule, fname, "missing schema check", hpos, "no dominating test 'schema == nil && channel.SchemaID != 0' returning an error before the message is yielded")
+									} else {
+										r.held(rule, fname, "missing schema check", hpos, "nil schema with non-zero SchemaID returns an error")
+									}
+								}
+								if n > 0 {
+									continue
+								}
+							}
+						}
+					}
+				}
+			}
 			// channel = <it>.channels.Get(msg.ChannelID)
 			if ok, why := isTableGet(channel, "channels", msg, "ChannelID"); ok {
 				r.held(rule, fname, "channel of the yielded message", pos, "looked up by the yielded message's ChannelID")
